@@ -236,6 +236,11 @@ class WorkBench(Bench):
     CLS = 'tbox::eventx::WorkThread'
 
 
+def _short(sched):
+    t = ''.join(str(c) for c in sched)
+    return t if len(t) <= 80 else t[:80] + '... (%d choices)' % len(t)
+
+
 def run_once(prog, script, schedule, min_threads, max_threads, bench=Bench):
     """(choices, verdict)"""
     b = bench(prog, schedule, min_threads, max_threads)
@@ -446,7 +451,7 @@ def r15(ctx, prog):
         sys.setrecursionlimit(old_rec)
     g = prog.fn1(W + '::threadProc')
     ctx.ob('C05.R15', 'WorkThread|interleavings', wbad is None, '%d schedules over %d scripts' % (wruns, len(WORK_SCRIPTS)) if wbad is None else
-           'script %s, schedule %s: %s' % (describe(wbad[0]), ''.join(str(c) for c in wbad[1]), wbad[2]), where=g.loc(g.body))
+           'script %s, schedule %s: %s' % (describe(wbad[0]), _short(wbad[1]), wbad[2]), where=g.loc(g.body))
     f = prog.fn1(T + '::threadProc')
     ctx.ob('C05.R15', 'ThreadPool|interleavings', bad is None, '%d schedules over %d scripts' % (runs, len(SCRIPTS)) if bad is None else
-           'pool (min %d, max %d), script %s, schedule %s: %s' % (bad[0][0], bad[0][1], describe(bad[1]), ''.join(str(c) for c in bad[2]), bad[3]), where=f.loc(f.body))
+           'pool (min %d, max %d), script %s, schedule %s: %s' % (bad[0][0], bad[0][1], describe(bad[1]), _short(bad[2]), bad[3]), where=f.loc(f.body))
